@@ -862,7 +862,10 @@ def delete_unused_functions_and_classes(
         funcdef
         for node in core.walk(root, ast.ClassDef)
         for funcdef in core.filter_nodes(node.body, (ast.FunctionDef, ast.AsyncFunctionDef))
-        if f"{node.name}.{funcdef.name}" in preserve or node.bases
+        if f"{node.name}.{funcdef.name}" in preserve
+        or node.bases
+        # Whoever uses a preserved class from elsewhere calls its magic methods without naming them
+        or (node.name in preserve and parsing.is_magic_method(funcdef))
     }
 
     for node in core.walk(root, (ast.FunctionDef, ast.AsyncFunctionDef)):
